@@ -118,6 +118,7 @@ class _RT(object):
         self.tr = None
         self.funcs = DEFAULT_FUNCS
         self.last_obs = None
+        self.last_end = None
         self.spawn = None   # set by the scheduler harness for 'par' steps
         self.tls = threading.local()
 
@@ -133,7 +134,7 @@ RT = _RT()
 
 class WrapIn(object):
     def prepare_input_for_recording(self, interception_key, result, args, kwargs):
-        if RT.stack and RT.stack[-1].get('fault') == 'handler':
+        if RT.stack and RT.stack[-1]['step'].get('fault') == 'handler':
             raise ValueError('input handler fails by design')
         return {'w': result}
 
@@ -143,7 +144,7 @@ class WrapIn(object):
 
 class WrapOut(object):
     def prepare_output_for_recording(self, interception_key, args, kwargs):
-        if RT.stack and RT.stack[-1].get('fault') == 'handler':
+        if RT.stack and RT.stack[-1]['step'].get('fault') == 'handler':
             raise ValueError('output handler fails by design')
         return {'wa': list(args), 'wk': kwargs}
 
@@ -152,10 +153,12 @@ class WrapOut(object):
 
 
 def _body(fname, args, kw, target):
-    step = RT.stack[-1]
+    rec = RT.stack[-1]
+    step = rec['step']
     assert step['fn'] == fname, (step, fname)
     ent = {'fn': fname, 'args': args, 'kw': kw, 'mode': RT.mode, 'thread': threading.current_thread().name}
     RT.journal.append(ent)
+    rec.setdefault('bodies', []).append(ent)
     ent['nested'] = []
     for act in step.get('pre', ()):
         _perform(target, act, ent['nested'])
@@ -328,9 +331,11 @@ def _perform(target, step, obs):
         if obs:
             mutate(obs[-1][1])
     elif do == 'raise':
-        raise EXC[step['exc']]('mid')
+        RT.last_end = EXC[step['exc']]('mid')
+        raise RT.last_end
     elif do == 'intr':
-        raise Interrupt()
+        RT.last_end = Interrupt()
+        raise RT.last_end
     elif do == 'thr':
         sub = []
 
@@ -391,7 +396,7 @@ def _call(target, step, obs):
         target.ident = step['ident']
         RT.tls.ident = step['ident']
     RT.tls.target = target
-    RT.stack.append(step)
+    RT.stack.append(rec)
     try:
         if spec['style'] == 'prop':
             r = getattr(target, step['fn'])
@@ -420,14 +425,18 @@ def _interp(target, prog):
     for step in prog['steps']:
         _perform(target, step, obs)
     end = prog.get('end', 'ret')
+    RT.last_end = None
     if end == 'ret':
         # the result depends on every value received, but shares no object with them: jsonpickle 0.9.3 on this Python
         # mis-numbers py/id references that follow an object encoded through py/state (third-party, outside the faithful domain)
         import copy
-        return copy.deepcopy(obs)
+        RT.last_end = copy.deepcopy(obs)
+        return RT.last_end
     if end == 'intr':
-        raise Interrupt()
-    raise EXC[end.split(':')[1]]('end')
+        RT.last_end = Interrupt()
+        raise RT.last_end
+    RT.last_end = EXC[end.split(':')[1]]('end')
+    raise RT.last_end
 
 
 # ---------------------------------------------------------------------------------------------- spy cassette
